@@ -97,7 +97,8 @@ PROPS["C05"] = dict(
 )
 PROPS["C06"] = dict(
     level="proof",
-    explanation="update_tank_heads (cylindrical: volume changes by net inflow x elapsed time, integrating from the previous solved head), "
+    explanation="update_tank_heads (cylindrical tanks of any diameter and volume-curve tanks with a three-point curve of symbolic coordinates: stored volume changes "
+                "by net inflow x elapsed time, integrating from the previous solved head), "
                 "update_network_previous_values, Tank.get_volume / level / init_level, TankLevelCondition's backtrack bound and "
                 "WNTRSimulator._get_all_tank_controls (which links are closed at min/max head before and after each solve, re-open thresholds) are "
                 "executed symbolically from the real source; lemma: overshoot below two seconds of the tank's flow.",
